@@ -118,6 +118,15 @@ def requests(seed=1, size="quick"):
                                                           ",".join(_st(x) for x in o._storage))
                     out.append((req, lambda N=N, ram=ram, disk=disk, tr=tr: _client(
                         cs.MultistageCheckpointSchedule(N, ram, disk, trajectory=tr), cs, None, None)))
+    for N in range(1, 26 if big else 15):
+        for sn in range(0, N + 2):
+            for st in ("RAM", "DISK"):
+                try:
+                    o = cs.MixedCheckpointSchedule(N, sn, storage=cs.StorageType[st])
+                except Exception:   # noqa: BLE001
+                    continue
+                out.append(("mixed %d %d %s" % (N, o._snapshots, st), lambda N=N, sn=sn, st=st: _client(
+                    cs.MixedCheckpointSchedule(N, sn, storage=cs.StorageType[st]), cs, None, None)))
     for N in range(1, 12):
         for k in (1, 2, 3):
             out.append(("singleMemory %d %d" % (k, N), lambda N=N, k=k: _client(cs.SingleMemoryStorageSchedule(), cs, k, N)))
